@@ -249,6 +249,30 @@ def run_check(ctx):
             if ("loop" in f["state"]) == (pid == "C18"):
                 rp = vp.save_replay(pid, "frequency_seed%d" % seed, {"property": pid, "formula": "frequency", "failures": [f]})
                 violations.append(("frequency", f["what"], rp))
+    basis = None
+    if pid in ("C06", "C19"):
+        # the handle used directly (spec/Basis.tla): bounded model + recorded call sequences
+        broot = vp.gen_module("GenBasis", "Basis", {"GFx(v)": "v", "GValues": "0..4"})
+        bcfg = ("SPECIFICATION Spec\nCONSTANTS\n  Fx <- GFx\n  Values <- GValues\n  Lo = 1\n  Hi = 3\n  Tol = 0\n"
+                "INVARIANTS SetInRange\nPROPERTIES ResetUndoesSet\nCHECK_DEADLOCK FALSE\n")
+        bm = vp.run_tlc("GenBasis", bcfg, pid + "_basis_mc", workers=2, timeout=600, root_text=broot)
+        bout = os.path.join(out, "basis.ndjson")
+        btok = os.path.join(out, "basis.tokens.json")
+        vp.pvh(["basis-ops", "--out", bout, "--tokens", btok, "--tier", tier, "--seed", str(seed)])
+        bt = vp.run_tlc("BasisTrace", "SPECIFICATION Spec\nPROPERTIES BasisLaws\nPOSTCONDITION Accepted\nCHECK_DEADLOCK FALSE\n",
+                        pid + "_basis_tr", env={"TRACE": bout, "TOKENS": btok}, workers=1, timeout=1200)
+        if bm.get("error") or bm["violations"]:
+            tool_errors.append("Basis model: %s %s" % (bm.get("error"), bm["violations"]))
+        if bt["violations"]:
+            blines = open(bout).read().splitlines()
+            ctx = blines[max(1, bt["depth"] - 3):bt["depth"] + 1]
+            rp = vp.save_replay(pid, "basis_seed%d" % seed, {"property": pid, "formula": "BasisLaws", "calls": ctx}, files=[bout, btok])
+            violations.append(("BasisLaws", "a direct call on a StandardBasis breaks the handle's law: " + ctx[-1], rp))
+        elif bt.get("error") or bt["not_consumed"]:
+            tool_errors.append("BasisTrace: %s" % (bt.get("error") or "not consumed"))
+        states += bm["distinct"] + bt["distinct"]
+        transitions += bm["generated"] + bt["generated"]
+        basis = {"bounded_model_states": bm["distinct"], "recorded_calls": bt["distinct"]}
     initial = None
     if pid == "C08":
         # every supported group with any shape of well-defined area starts from a valid state
@@ -295,6 +319,7 @@ def run_check(ctx):
         "frequency_side_check": freq,
         "script_replay": scripts,
         "initial_states": initial,
+        "basis_handle_direct": basis,
         "apalache_inductive_invariant": induction,
         "states": states, "transitions": transitions,
         "traces_validated_against_impl": nruns,
